@@ -87,6 +87,16 @@ Theorem C18_solve_debug_never_not_converged :
 Proof. exact solve_debug_never_not_converged. Qed.
 Print Assumptions C18_solve_debug_never_not_converged.
 
+(** a predicate established by every update and preserved by evaluation (non-negativity of the density: every
+    algorithm ends its update with abs / exp) holds for the returned profile if it holds for the initial one *)
+Theorem C18_solve_preserves_invariant :
+  forall (X : Type) (eval : X -> option (Q * X)) (step : stage -> list X -> X -> option X) (Inv : X -> Prop),
+  (forall x r x1, eval x = Some (r, x1) -> Inv x -> Inv x1) ->
+  (forall st hist x x', step st hist x = Some x' -> Inv x') ->
+  forall stages debug x x' c it, Inv x -> call_solver eval step stages debug x = Ok x' c it -> Inv x'.
+Proof. exact solve_preserves_invariant. Qed.
+Print Assumptions C18_solve_preserves_invariant.
+
 (** the replay used by the correspondence check is the model itself run on the observed residual stream *)
 Theorem C18_replay_ok_is_call_solver :
   forall stages debug stream c it outs left,
